@@ -59,12 +59,19 @@ func cmdFunc(args []string) {
 	pkgs := fs.String("pkgs", "./...", "package patterns (comma separated)")
 	verbose := fs.Bool("v", false, "print every obligation")
 	model := fs.Bool("model", false, "print a model for failed obligations")
+	groups := fs.String("groups", "", "enabled contract groups (comma separated)")
 	fs.Parse(args)
 	t0 := time.Now()
 	w, err := engine.Load(*repo, pkgList(*pkgs)...)
 	if err != nil {
 		fmt.Fprintln(os.Stderr, err)
 		os.Exit(2)
+	}
+	w.Groups = map[string]bool{}
+	for _, g := range strings.Split(*groups, ",") {
+		if g != "" {
+			w.Groups[g] = true
+		}
 	}
 	if err := w.LoadContracts(); err != nil {
 		fmt.Fprintln(os.Stderr, err)
